@@ -373,80 +373,251 @@ def _check_derive(ctx, d, c):
     judge(ctx, d, c, "original command no longer decodes to its fields after a command was derived from it", after[2], desc)
 
 
+PAYLOAD_ACTS = ["rewrite", "rewrite0", "extend", "truncate", "poke", "seek", "buffer", "newstream", "fromfile"]
+STREAM_KINDS = ["bytesio", "file", "rawfile", "fromfile"]
+
+
+class _Payloads:
+    """The payload OBJECTS of a mutate case: streams (BytesIO, real files) with the harness's own record of what they hold.
+    The record is kept from the edits the harness itself performs (every edit positions the stream explicitly first), so
+    the oracle never reads a stream through the library and never depends on where a stream's position was left."""
+
+    def __init__(self):
+        self.streams = []          # [{"s": stream object, "c": bytearray (content now), "kind": str}]
+        self.dir = None
+
+    def _path(self):
+        import tempfile
+        if self.dir is None:
+            self.dir = tempfile.mkdtemp(prefix="vc06_")
+        return "%s/p%d.bin" % (self.dir, len(self.streams))
+
+    def new(self, kind, content: bytes, cmd=None):
+        """a fresh stream of `kind` holding `content`; kind 'fromfile' is opened by the command itself
+        (`set_data_from_file`, read-only handle)"""
+        if kind == "bytesio":
+            st = io.BytesIO(content)
+        else:
+            path = self._path()
+            with open(path, "wb") as fh:
+                fh.write(content)
+            if kind == "fromfile":
+                cmd.set_data_from_file(path)
+                st = cmd.data
+            else:
+                st = open(path, "r+b", buffering=0 if kind == "rawfile" else -1)
+        st.seek(len(content) // 2)
+        self.streams.append({"s": st, "c": bytearray(content), "kind": kind})
+        return len(self.streams) - 1
+
+    def edit(self, k, st_desc) -> str:
+        """perform one edit on stream k; returns the act actually performed (an edit that the stream cannot take is
+        replaced by moving the position)"""
+        e = self.streams[k]
+        s, c, act = e["s"], e["c"], st_desc["act"]
+        new = data_bytes(st_desc.get("data")) if "data" in st_desc else b""
+        at = len(c) * int(st_desc.get("num", 0)) // max(1, int(st_desc.get("den", 1)))
+        writable = e["kind"] != "fromfile"
+        if act in ("rewrite", "rewrite0") and writable:
+            s.seek(0)
+            s.truncate()
+            s.write(new)
+            if act == "rewrite0":
+                s.seek(0)
+            c[:] = new
+        elif act == "extend" and writable:
+            s.seek(0, 2)
+            s.write(new)
+            c += new
+        elif act == "truncate" and writable:
+            s.truncate(at)
+            del c[at:]
+        elif act == "poke" and writable:
+            s.seek(at)
+            s.write(new)
+            c[at:at + len(new)] = new
+        elif act == "buffer" and e["kind"] == "bytesio":
+            m = min(len(new), len(c) - at)
+            with s.getbuffer() as view:
+                view[at:at + m] = new[:m]
+            c[at:at + m] = new[:m]
+        else:
+            act = "seek"
+            s.seek(int(st_desc.get("pos", at)))
+        if hasattr(s, "flush") and writable:
+            s.flush()
+        return act
+
+    def close(self):
+        for e in self.streams:
+            try:
+                e["s"].close()
+            except Exception:          # noqa: BLE001
+                pass
+        if self.dir is not None:
+            import shutil
+            shutil.rmtree(self.dir, ignore_errors=True)
+
+
 def _check_mutate(ctx, d, c):
     """The same object serialised again after in-place edits (commands are mutable dataclasses): every serialisation must
-    decode to the fields set AT THAT MOMENT."""
+    decode to the fields set AT THAT MOMENT — and to the payload held at that moment: a stream-valued `data` is an object
+    of the caller's, whose contents may be rewritten, extended, cut, edited in place between two serialisations, shared
+    by two commands, or replaced by another stream / bytes / a file name."""
     gc = gcmod()
     desc = c["cmd"]
     typ = desc["type"]
     ctx.count("type:" + typ)
     data = data_bytes(desc.get("data"))
-    if typ == "T" and c.get("stream") == "bytesio":
-        obj = build(desc, data_override=io.BytesIO(data))
-        obj.data.seek(len(data) // 2)
+    for st in c["steps"]:
+        if st["how"] not in ("none", "set", "pset", "set_placement", "set_data", "set_filename", "payload"):
+            raise ValueError(st["how"])
+        if st["how"] == "payload" and st["act"] not in PAYLOAD_ACTS:
+            raise ValueError(st["act"])
+    pays = _Payloads()
+    try:
+        _mutate_run(ctx, d, c, gc, desc, typ, data, pays)
+    except Exception as e:  # the model has no error path here
+        ctx.mismatch("in-place edit / serialisation raised", c, repr(e)[:200], "no error")
+    finally:
+        pays.close()
+
+
+def _mutate_run(ctx, d, c, gc, desc, typ, data, pays):
+    skind = c.get("stream", "bytes")
+    hold = {}                                            # id(command) -> ("bytes", b) | ("stream", k): what it holds now
+    if typ == "T" and skind in STREAM_KINDS:
+        ctx.count("mutate:payload-object:" + skind)
+        if skind == "fromfile":
+            obj = build(desc)
+            k0 = pays.new("fromfile", data, cmd=obj)
+        else:
+            k0 = pays.new(skind, data)
+            obj = build(desc, data_override=pays.streams[k0]["s"])
+        hold[id(obj)] = ("stream", k0)
     else:
         obj = build(desc)
-    for st in c["steps"]:
-        if st["how"] not in ("none", "set", "pset", "set_placement", "set_data", "set_filename"):
-            raise ValueError(st["how"])
+        hold[id(obj)] = ("bytes", data)
     cur = copy.deepcopy(with_fields(desc, {}))           # never edit the case itself
-    # a second command sharing the PlacementData object
-    other = other_desc = None
+    # a second command sharing the PlacementData object / the payload stream object
+    others = []
     if typ == "T" and c.get("shared") and obj.placement is not None:
-        other_desc = {"type": "T", "f": {"image_number": 3, "placement": cur["f"]["placement"]}, "data": {"hex": "00ff"}}
-        other = gc.TransmitCommand(image_number=3, placement=obj.placement, data=b"\x00\xff")
+        od = {"type": "T", "f": {"image_number": 3, "placement": cur["f"]["placement"]}}
+        o = gc.TransmitCommand(image_number=3, placement=obj.placement, data=b"\x00\xff")
+        hold[id(o)] = ("bytes", b"\x00\xff")
+        others.append((o, od, "command sharing the placement object"))
         ctx.count("mutate:shared-placement")
+    if typ == "T" and c.get("shared_stream") and hold[id(obj)][0] == "stream":
+        od = {"type": "T", "f": {"image_id": 77, "format": "PNG"}}
+        o = gc.TransmitCommand(image_id=77, format=gc.Format.PNG, data=obj.data)
+        hold[id(o)] = hold[id(obj)]
+        others.append((o, od, "command sharing the payload stream"))
+        ctx.count("mutate:shared-stream")
+
+    def content(o) -> bytes:
+        h = hold[id(o)]
+        return h[1] if h[0] == "bytes" else bytes(pays.streams[h[1]]["c"])
 
     def stage(i):
         at = dict(c, at=i)
-        for o, ds, nm in ((obj, cur, "command"), (other, other_desc, "command sharing the placement object")):
-            if o is None:
-                continue
-            impl = ser(o)
+        for o, ds0, nm in [(obj, cur, "command")] + others:
+            ds = {"type": ds0["type"], "f": ds0.get("f")}
+            if ds["type"] in ("T", "M"):
+                ds["data"] = {"hex": content(o).hex()}
+            order = (i + 1) % 3                          # which serialisation entry point sees the new state first
+            if order == 1 and ds["type"] == "T":
+                raw = o.get_raw_payload()
+            impl = ser(o) if order != 2 else tuple(reversed([hx(o.to_bytes(gc.GraphicsCommand.DEFAULT_TEMPLATE)), hx(o.content_to_bytes()),
+                                                             hx(o.header_to_bytes())]))
+            if ds["type"] == "T":
+                if order != 1:
+                    raw = o.get_raw_payload()
+                ctx.eq(f"get_raw_payload() #{i + 2} of the same {nm} vs the payload it holds at that moment", at, hx(raw), hx(content(o)))
             ctx.eq(f"serialisation #{i + 2} of the same {nm}", at, impl, model_ser(d, tokens(ds)))
             full = impl[2]
-            if c.get("via") == "send" and not is_inline(ds):
-                out = io.BytesIO()
-                o.send(out, gc.GraphicsCommand.DEFAULT_TEMPLATE, max_size=None)
-                ctx.eq(f"send #{i + 2} of the same {nm}", at, hx(out.getvalue()), full)
-                full = hx(out.getvalue())
-            if not judge(ctx, d, at, f"serialisation #{i + 2} of the same {nm} does not decode to the fields set at that moment", full, ds):
+            if not judge(ctx, d, at, f"serialisation #{i + 2} of the same {nm} does not decode to the fields and payload held at that moment", full, ds):
                 return False
+            if c.get("via") == "send":
+                out = io.BytesIO()
+                if not is_inline(ds):
+                    o.send(out, gc.GraphicsCommand.DEFAULT_TEMPLATE, max_size=None)
+                    ctx.eq(f"send #{i + 2} of the same {nm}", at, hx(out.getvalue()), full)
+                    sent, sds = hx(out.getvalue()), ds
+                elif len(content(o)) <= 1500:
+                    # an inline payload that fits one command: send() emits one escape, flagged as the last chunk
+                    # (the chunking itself is C05's claim; here: the payload is the one held now)
+                    o.send(out, gc.GraphicsCommand.DEFAULT_TEMPLATE, max_size=None)
+                    m = d.ask(f"send 0 none {tokens(ds)}")
+                    ctx.eq(f"send #{i + 2} of the same {nm} (inline, one chunk)", at, hx(out.getvalue()), "".join(m.split(" ")))
+                    sent, sds = hx(out.getvalue()), with_fields(ds, {"more": bool((ds.get("f") or {}).get("more"))})
+                    ctx.count("mutate:inline-send")
+                else:
+                    continue
+                if not judge(ctx, d, at, f"send #{i + 2} of the same {nm} does not decode to the fields and payload held at that moment", sent, sds):
+                    return False
         return True
 
-    try:
-        if not stage(-1):
+    if not stage(-1):
+        return
+    for i, st in enumerate(c["steps"]):
+        how = st["how"]
+        ctx.count("mutate:" + how)
+        if how == "none":
+            pass
+        elif how == "set":
+            for kk, vv in conv_kw(st["kw"]).items():
+                setattr(obj, kk, vv)
+            cur = with_fields(cur, st["kw"])
+            if "data" in st["kw"]:
+                hold[id(obj)] = ("bytes", data_bytes(st["kw"]["data"]))
+        elif how == "pset":
+            if typ != "T" or obj.placement is None:
+                ctx.count("mutate:pset-skipped")
+                continue
+            for kk, vv in st["kw"].items():
+                setattr(obj.placement, kk, vv)
+            pl = cur["f"]["placement"]
+            pl.update(st["kw"])                     # in place: the description shared with `other` follows, as the object does
+        elif how == "set_placement":
+            obj.set_placement(**st["kw"])
+            cur = with_fields(cur, {"placement": st["kw"]})
+        elif how == "set_data":
+            obj.set_data(data_bytes(st["data"]))
+            hold[id(obj)] = ("bytes", data_bytes(st["data"]))
+        elif how == "set_filename":
+            obj.set_filename(st["text"])
+            hold[id(obj)] = ("bytes", st["text"].encode())
+        elif how == "payload":
+            if typ != "T":
+                ctx.count("mutate:payload-skipped")
+                continue
+            act = st["act"]
+            if act == "newstream":
+                # the command is given ANOTHER stream object (attribute assignment or set_data); the old one stays with
+                # whoever shares it
+                k = pays.new(st.get("kind", "bytesio"), data_bytes(st.get("data")))
+                if st.get("by") == "attr":
+                    obj.data = pays.streams[k]["s"]
+                else:
+                    obj.set_data(pays.streams[k]["s"])
+                hold[id(obj)] = ("stream", k)
+            elif act == "fromfile":
+                k = pays.new("fromfile", data_bytes(st.get("data")), cmd=obj)
+                hold[id(obj)] = ("stream", k)
+            elif not pays.streams:
+                ctx.count("mutate:payload-skipped")
+                continue
+            else:
+                # edit the stream the command holds now; if it holds bytes, the stream it held before (still held by a
+                # command sharing it) — the command's own payload must not follow that one any more
+                h = hold[id(obj)]
+                k = h[1] if h[0] == "stream" else len(pays.streams) - 1
+                act = pays.edit(k, st)
+                if h[0] != "stream":
+                    ctx.count("mutate:payload-edit-of-a-stream-no-longer-held")
+            ctx.count("mutate:payload:" + act)
+        if not stage(i):
             return
-        for i, st in enumerate(c["steps"]):
-            how = st["how"]
-            ctx.count("mutate:" + how)
-            if how == "none":
-                pass
-            elif how == "set":
-                for kk, vv in conv_kw(st["kw"]).items():
-                    setattr(obj, kk, vv)
-                cur = with_fields(cur, st["kw"])
-            elif how == "pset":
-                if typ != "T" or obj.placement is None:
-                    ctx.count("mutate:pset-skipped")
-                    continue
-                for kk, vv in st["kw"].items():
-                    setattr(obj.placement, kk, vv)
-                pl = cur["f"]["placement"]
-                pl.update(st["kw"])                     # in place: the description shared with `other` follows, as the object does
-            elif how == "set_placement":
-                obj.set_placement(**st["kw"])
-                cur = with_fields(cur, {"placement": st["kw"]})
-            elif how == "set_data":
-                obj.set_data(data_bytes(st["data"]))
-                cur = with_fields(cur, {"data": st["data"]})
-            elif how == "set_filename":
-                obj.set_filename(st["text"])
-                cur = with_fields(cur, {"data": {"text": st["text"]}})
-            if not stage(i):
-                return
-    except Exception as e:  # the model has no error path here
-        ctx.mismatch("in-place edit / serialisation raised", c, repr(e)[:200], "no error")
 
 
 def _nset(desc):
@@ -698,6 +869,9 @@ def cases2(ctx: Ctx):
         for fld in FIELDS_OF[typ]:
             for mode in ["none", "falsy", "value"]:
                 yield {"k": "mutate", "cmd": rnd_desc(rng, typ, rng.choice([0.3, 1.0])), "steps": [{"how": "set", "kw": {fld: kw_value(rng, fld, mode)}}]}
+    # --- the PAYLOAD object edited between serialisations: every kind of stream x every edit, alone / followed by a second
+    # edit, the stream also held by a second command, to_bytes and send; inline data and names (non-direct media)
+    yield from payload_cases(ctx)
     # ... and random edit sequences
     for _ in range(1500 if quick else 30000):
         typ = rng.choice("TTTMPD")
@@ -706,8 +880,10 @@ def cases2(ctx: Ctx):
             desc["f"]["placement"] = rnd_placement(rng)
         steps = []
         for _j in range(rng.randrange(1, 5)):
-            how = rng.choice(["set", "pset", "pset", "set_placement", "set_data", "set_filename", "none"]) if typ == "T" else rng.choice(["set", "set", "none"])
-            if how == "set":
+            how = rng.choice(["set", "pset", "pset", "set_placement", "set_data", "set_filename", "none", "payload", "payload"]) if typ == "T" else rng.choice(["set", "set", "none"])
+            if how == "payload":
+                steps.append(rnd_payload_step(rng))
+            elif how == "set":
                 steps.append({"how": "set", "kw": rnd_kw(rng, typ, nmax=2)})
             elif how == "pset":
                 steps.append({"how": "pset", "kw": rnd_kw(rng, "P", P_FIELDS)})
@@ -720,10 +896,72 @@ def cases2(ctx: Ctx):
             else:
                 steps.append({"how": "none"})
         yield {"k": "mutate", "cmd": desc, "shared": rng.random() < 0.4, "via": rng.choice(["to_bytes", "to_bytes", "send"]),
-               "stream": "bytesio" if typ == "T" and rng.random() < 0.15 else "bytes", "steps": steps}
+               "stream": rng.choice(STREAM_KINDS) if typ == "T" and rng.random() < 0.4 else "bytes", "shared_stream": rng.random() < 0.3,
+               "steps": steps}
+
+
+def rnd_payload(rng):
+    """contents for a payload object: empty, one byte, short binary, a name, a run that crosses base64 quantum boundaries,
+    something longer than one stdio buffer"""
+    r = rng.random()
+    if r < 0.1:
+        return {"hex": ""}
+    if r < 0.2:
+        return {"hex": "%02x" % rng.randrange(256)}
+    if r < 0.35:
+        return {"text": rng.choice(NAMES[1:6])}
+    if r < 0.9:
+        return {"len": rng.choice([2, 3, 4, 11, 12, 13, 100, 255]), "pat": rng.choice(["rand", "x", "esc", "ff", "zero"]), "seed": rng.randrange(1000)}
+    return {"len": rng.choice([1499, 9000]), "pat": "rand", "seed": rng.randrange(1000)}
+
+
+def rnd_payload_step(rng, act=None):
+    act = act or rng.choice(PAYLOAD_ACTS)
+    st = {"how": "payload", "act": act, "num": rng.choice([0, 0, 1, 1, 2, 3]), "den": rng.choice([3, 3, 2, 1])}
+    if st["num"] > st["den"]:
+        st["num"] = st["den"]
+    if act == "seek":
+        st["pos"] = rng.choice([0, 0, 1, 5, 10**6])
+    else:
+        st["data"] = rnd_payload(rng)
+    if act == "newstream":
+        st["kind"] = rng.choice(["bytesio", "file", "rawfile"])
+        st["by"] = rng.choice(["attr", "set_data"])
+    return st
+
+
+def payload_cases(ctx: Ctx):
+    rng = ctx.rng
+    firsts = PAYLOAD_ACTS + ["set_data", "set_filename", "setattr"]
+    for skind in STREAM_KINDS:
+        for act in firsts:
+            for shared in [False, True]:
+                for medium in [None, "DIRECT", "FILE"]:
+                    if ctx.quick and medium == "DIRECT" and rng.random() < 0.5:
+                        continue
+                    f = {"image_id": rng.choice(BOUNDARY), "medium": medium}
+                    if rng.random() < 0.3:
+                        f["more"] = rng.random() < 0.5
+                    if rng.random() < 0.3:
+                        f["placement"] = rnd_placement(rng, 0.3)
+                    if act == "set_data":
+                        first = {"how": "set_data", "data": rnd_payload(rng)}
+                    elif act == "set_filename":
+                        first = {"how": "set_filename", "text": rng.choice(NAMES)}
+                    elif act == "setattr":
+                        first = {"how": "set", "kw": {"data": rnd_payload(rng)}}
+                    else:
+                        first = rnd_payload_step(rng, act)
+                    for tail in ([], [{"how": "none"}, rnd_payload_step(rng)], [rnd_payload_step(rng), rnd_payload_step(rng, "rewrite")]):
+                        yield {"k": "mutate", "cmd": {"type": "T", "f": f, "data": rnd_payload(rng)}, "stream": skind, "shared_stream": shared,
+                               "via": rng.choice(["to_bytes", "send"]), "steps": [first] + tail}
 
 
 def run_corpus(ctx: Ctx, prop: str, check):
+    """corpus cases first (shared by c05.py / c11.py); before them, whatever the command classes declare that the Lean
+    model does not know (a new public field, a new enum member) is reported as a broken correspondence."""
+    from . import gen_cmd
+    gen_cmd.report_unknown(ctx)
     corpus_dir = Path(__file__).resolve().parent.parent / "corpus" / prop
     if corpus_dir.is_dir():
         for f in sorted(corpus_dir.glob("*.json")):
@@ -743,7 +981,11 @@ def run(ctx: Ctx):
                 "send() and split(); commands DERIVED through clone_with (every field x {None, 0/False, value} one at a time on full "
                 "and sparse commands, random chains), get_pure_transmit_command, get_put_command, judged against the fields the caller "
                 "asked for, original re-checked; the SAME object serialised again after in-place edits (attribute assignment, every "
-                "nested PlacementData field, a placement object shared by two commands, set_placement / set_data / set_filename). "
+                "nested PlacementData field, a placement object shared by two commands, set_placement / set_data / set_filename) "
+                "and after edits of the PAYLOAD OBJECT (BytesIO, buffered / unbuffered real file, set_data_from_file handle x "
+                "rewritten / extended / cut / overwritten in the middle / edited through getbuffer() / position moved / replaced by "
+                "another stream, bytes or a file name; the stream also held by a second command), every to_bytes / content_to_bytes / "
+                "get_raw_payload / send judged against the payload held at that moment. "
                 "distinct = canonical JSON of the case; non-trivial = at least one optional field set or a payload")
     run_corpus(ctx, "C06", check_case)
     for c in itertools.chain(cases2(ctx), cases(ctx)):
@@ -753,4 +995,5 @@ def run(ctx: Ctx):
         check_case(ctx, c)
         ctx.case(c, nontrivial=(_nset(c["cmd"]) > 0 or bool(c["cmd"].get("data")) or c["k"] != "cmd"))
     ctx.assumptions += ["field values are natural numbers, booleans or enum members (the declared types)",
-                        "in-place edits assign values of the declared types; a stream payload is not written to between serialisations"]
+                        "in-place edits assign values of the declared types; a stream payload is seekable and is edited only between "
+                        "(not during) serialisations; a file opened by set_data_from_file is not changed behind the handle's back"]
